@@ -98,6 +98,12 @@ SHAPES = [
     ("space", "My Form.qml", "work/My Form.qml", "My Form"),
     ("non-ascii", "Fenêtre.qml", "work/Fenêtre.qml", "Fenêtre"),
     ("deep", "sub/deeper/Y.qml", "work/sub/deeper/Y.qml", "Y"),
+    # dots inside the name, upper-case letters in directory components (only the file name is lower-cased)
+    ("extra-dot", "Settings.General.qml", "work/Settings.General.qml", "Settings.General"),
+    ("two-extra-dots", "sub/a.B.c.qml", "work/sub/a.B.c.qml", "a.B.c"),
+    ("upper-dir", "Forms/MainDialog.qml", "work/Forms/MainDialog.qml", "MainDialog"),
+    ("upper-dir-deep", "src/Dialogs/SubDir/X.qml", "work/src/Dialogs/SubDir/X.qml", "X"),
+    ("upper-dir-dotted", "My.Forms/x.y.qml", "work/My.Forms/x.y.qml", "x.y"),
 ]
 OUTDIRS = [None, "out", "out/deep/er", "@ABS@/absout", "."]
 
@@ -112,16 +118,22 @@ def expected_names(stem, nodyn, nolower):
     return [ui] if nodyn else [ui, h]
 
 
+QUICK_TIER = False
+
+
 def part_a(tally, scratch):
     k = 0
     for (label, arg, loc, stem), outdir, nodyn, nolower in itertools.product(
             SHAPES, OUTDIRS, (False, True), (False, True)):
+        if QUICK_TIER and label in ("two-extra-dots", "upper-dir-deep", "upper-dir-dotted") and outdir not in (None, "out"):
+            continue        # quick: the later name shapes with two output-directory choices only
         k += 1
         root = os.path.join(scratch, f"a{k}")
         os.makedirs(os.path.join(root, "work", "sub", "deeper"))
         os.makedirs(os.path.join(root, "elsewhere"))
         for (_l, _a, floc, _s) in SHAPES:
             p = os.path.join(root, floc)
+            os.makedirs(os.path.dirname(p), exist_ok=True)
             if not os.path.exists(p):
                 with open(p, "w") as f:
                     f.write(STATIC_SRC)
@@ -505,6 +517,8 @@ def part_c(tally, scratch, tier):
 def main(tier, t0):
     vc.ensure_cli()
     tally = vc.Tally()
+    global QUICK_TIER
+    QUICK_TIER = tier == "quick"
     with vc.scratch_dir("c15") as scratch:
         part_a(tally, scratch)
         part_b(tally, scratch, tier)
